@@ -260,9 +260,11 @@ def _c16_payloads(ctx):
         # catalogue sweep: crop x soil x strategy round-robin, everything else random
         crop = sim.CROPS[i % len(sim.CROPS)]
         soil = (sim.SOILS + ["custom", "texture"])[(i // 3) % (len(sim.SOILS) + 2)]
-        cfg = sim.gen_config(rng, crop=crop, soil_type=soil, method=i % 6, strict=False)
+        cfg = sim.gen_config(rng, crop=crop, soil_type=soil, method=i % 6, strict=False, **({"seasons": 2 + i % 2} if i % 5 == 3 else {}))
         p = {"cfg": cfg}
         if i % 5 == 3:
+            if cfg.get("co2") is None:
+                cfg["co2"] = {}          # a CO2 object supplied by the user (default table): the object that carries state between models
             # the same input objects were used before: over a window shifted by so many years, over a shorter window with the same start,
             # or over a window starting a year later
             p["prehistory"] = [-3, "shorter", 2, "later_start", -2, "shorter", 4][(i // 5) % 7]
